@@ -149,11 +149,15 @@ Section Step.
             (mnsteps s) (mE s) (mm s) (manti s) (mdep s) (msecs s) n0
     else s.
 
-  (** InteractionApplier launched for tracks whose action is the model's *)
-  Definition interact_act (i : sinput) (s : sim) : sim :=
+  (** InteractionApplier launched for tracks whose action is the model's.
+      [fixed] selects the allocation-failure branch:
+      - [false]: [sim.step_limit({0, failure})]  (the code in which finding F5 was made)
+      - [true] : [sim.post_step_action(failure)] (the repair: step length untouched) *)
+  Definition interact_act (fixed : bool) (i : sinput) (s : sim) : sim :=
     if paction_eqb (mpost s) AModel then
       let '(x, failed) := interaction_apply (in_apply_post i) (in_cut i) (in_inter i) (slot_of s) in
-      if failed then fst (step_limit n0 AFailure s)
+      if failed then
+        (if fixed then with_step s (mstep s) AFailure else fst (step_limit n0 AFailure s))
       else
         let s1 := with_slot s x in
         match iact (in_inter i) with
@@ -181,26 +185,27 @@ Section Step.
     if paction_eqb (mpost s) ATrackingCut then with_slot s (tracking_cut_apply (slot_of s)) else s.
 
   (** actions between the user_pre and user_post gather points, in ActionSequence order *)
-  Definition post_actions (i : sinput) (s : sim) : sim :=
-    tracking_cut_act (boundary_act i (interact_act i (discrete_select i s))).
+  Definition post_actions (fixed : bool) (i : sinput) (s : sim) : sim :=
+    tracking_cut_act (boundary_act i (interact_act fixed i (discrete_select i s))).
 
-  Definition step_body (i : sinput) (s : sim) : sim := post_actions i (along_step_act i s).
+  Definition step_body (fixed : bool) (i : sinput) (s : sim) : sim :=
+    post_actions fixed i (along_step_act i s).
 
   (** one iteration: returns the (pre, post) record and the new state *)
-  Definition one_step (i : sinput) (s : sim) : snapshot * sim * sim :=
+  Definition one_step (fixed : bool) (i : sinput) (s : sim) : snapshot * sim * sim :=
     let s0 := pre_step i s in
-    let s1 := step_body i s0 in
+    let s1 := step_body fixed i s0 in
     (snap s0, s0, s1).
 
   (** the list of intermediate states of one iteration (for status monotonicity) *)
-  Definition step_trace (i : sinput) (s : sim) : list sim :=
+  Definition step_trace (fixed : bool) (i : sinput) (s : sim) : list sim :=
     let s0 := pre_step i s in
     let a1 := match mstat s0 with Alive => propagate_apply i s0 | _ => s0 end in
     let a2 := match mstat s0 with Alive => time_update i a1 | _ => s0 end in
     let a3 := match mstat s0 with Alive => eloss_act i a2 | _ => s0 end in
     let a4 := match mstat s0 with Alive => track_update i a3 | _ => s0 end in
     let p1 := discrete_select i a4 in
-    let p2 := interact_act i p1 in
+    let p2 := interact_act fixed i p1 in
     let p3 := boundary_act i p2 in
     let p4 := tracking_cut_act p3 in
     [s; s0; a1; a2; a3; a4; p1; p2; p3; p4].
@@ -211,13 +216,14 @@ Section Step.
   (** a track's history: the same slot through consecutive iterations while it
       stays alive (ProcessSecondaries leaves the sim/particle/geo state of an
       alive track untouched) *)
-  Fixpoint run_steps (ins : list sinput) (s : sim) : list (snapshot * snapshot * sim) :=
+  Fixpoint run_steps (fixed : bool) (ins : list sinput) (s : sim)
+    : list (snapshot * snapshot * sim) :=
     match ins with
     | [] => []
     | i :: r =>
-      let '(pre, s0, s1) := one_step i s in
+      let '(pre, s0, s1) := one_step fixed i s in
       (pre, snap s1, s1) ::
-        match mstat s1 with Alive => run_steps r s1 | _ => [] end
+        match mstat s1 with Alive => run_steps fixed r s1 | _ => [] end
     end.
 
 End Step.
